@@ -187,6 +187,18 @@ func New(data Map, query string, options ...QueryOption) (*Query, error) {
 	return q, nil
 }
 
+// scopeOf returns a shallow copy of a row extended with the backward
+// navigation marker `<-`, so that evaluation never writes into the
+// caller's document.
+func scopeOf(query *Query, current Map) Map {
+	scope := make(Map, len(current)+1)
+	for key, value := range current {
+		scope[key] = value
+	}
+	scope["<-"] = query.data
+	return scope
+}
+
 func Prepare(data Map, statement sqlparser.Statement, options *Options) (*Query, error) {
 	q := &Query{
 		offsetDefinition:    -1,
@@ -774,8 +786,7 @@ func OrExpr(query *Query, current Map, expr *sqlparser.OrExpr, opts ...ExprOptio
 }
 
 func ComparisonExpr(query *Query, current Map, expr *sqlparser.ComparisonExpr, opts ...ExprOption) (bool, error) {
-	current["<-"] = query.data
-	defer delete(current, "<-")
+	current = scopeOf(query, current)
 	left, err := Expr(query, current, expr.Left, opts...)
 	if err != nil {
 		return false, err
@@ -1290,11 +1301,7 @@ func SelectExpr(query *Query, current Map, expr *sqlparser.SelectExprs, opts ...
 
 func SubqueryExpr(query *Query, current Map, expr *sqlparser.Subquery, opts ...ExprOption) (any, error) {
 	// Backward Navigation
-	current["<-"] = query.data
-	query.postProcessors = append(query.postProcessors, func() error {
-		delete(current, "<-")
-		return nil
-	})
+	current = scopeOf(query, current)
 	subQuery, err := Prepare(current, expr.Select, query.options)
 	if err != nil {
 		return nil, err
@@ -1337,25 +1344,29 @@ func CaseExpr(query *Query, current Map, expr *sqlparser.CaseExpr, opts ...ExprO
 // it finds the first value
 func ExistExpr(query *Query, current Map, expr *sqlparser.ExistsExpr, opts ...ExprOption) (bool, error) {
 	// Backward Navigation
-	current["<-"] = query.data
-	query.postProcessors = append(query.postProcessors, func() error {
-		delete(current, "<-")
-		return nil
-	})
+	current = scopeOf(query, current)
 	q, err := Prepare(current, expr.Subquery.Select, query.options)
 	if err != nil {
 		return false, err
 	}
+	// the subquery's rows see the outer row's columns: merged copies, the
+	// caller's nested rows are left as they are
+	from := make([]any, len(q.from))
 	for i := 0; i < len(q.from); i++ {
 		item, ok := q.from[i].(Map)
 		if !ok {
 			return false, INVALID_TYPE.Extend(fmt.Sprintf("failed to build `EXIST` expression. expected an object but found %T", item))
 		}
-		for key, value := range current {
-			item[key] = value
+		merged := make(Map, len(item)+len(current))
+		for key, value := range item {
+			merged[key] = value
 		}
-		q.from[i] = item
+		for key, value := range current {
+			merged[key] = value
+		}
+		from[i] = merged
 	}
+	q.from = from
 	rs, err := q.exec()
 	array, ok := rs.([]any)
 	if !ok {
